@@ -240,3 +240,187 @@ Proof.
     + apply NoDup_app_snoc_lt; auto.
     + intros k0 Hk. apply in_app_or in Hk. destruct Hk as [Hk|[<-|[]]]; [apply LT in Hk|]; lia.
 Qed.
+
+Lemma pws_add_wg : forall cfg tp m pws i pws' ref sp,
+  pws_add cfg tp m i pws = Some (pws', ref, sp) ->
+  wsum pws' = wsum pws + sp /\ (Forall pw_ok pws -> Forall pw_ok pws').
+Proof.
+  induction pws as [|a pws IH]; simpl; intros i pws' ref sp H; [discriminate|].
+  destruct (pw_open a && tp_eqb (pw_tp a) tp).
+  - destruct (pw_add cfg a m) as [[p' k] sp'] eqn:E. inversion H; subst.
+    apply pw_add_wg in E. destruct E as [E1 E2]. simpl. split; [lia|].
+    intros HF; inversion HF; subst; constructor; auto.
+  - destruct (pws_add cfg tp m (S i) pws) as [[[r' ref'] sp']|] eqn:E; [|discriminate].
+    inversion H; subst. apply IH in E. destruct E as [E1 E2]. simpl. split; [lia|].
+    intros HF; inversion HF; subst; constructor; auto.
+Qed.
+
+Lemma new_pw_ok : forall tp, pw_ok (new_pw tp).
+Proof. intros tp. split; simpl; [constructor|intros k []]. Qed.
+
+Lemma assign_one_wg : forall cfg pws wg refs m pws' wg' refs',
+  assign_one cfg (pws, wg, refs) m = (pws', wg', refs') ->
+  wg' + wsum pws = wg + wsum pws' /\ (Forall pw_ok pws -> Forall pw_ok pws').
+Proof.
+  intros cfg pws wg refs m pws' wg' refs' H. unfold assign_one in H.
+  destruct (pws_add cfg (tp_of cfg m) m 0 pws) as [[[r' ref'] sp']|] eqn:E.
+  - inversion H; subst. apply pws_add_wg in E. destruct E as [E1 E2]. split; [lia|auto].
+  - destruct (pw_add cfg (new_pw (tp_of cfg m)) m) as [[p' k] sp'] eqn:E2.
+    inversion H; subst. apply pw_add_wg in E2. destruct E2 as [E3 E4].
+    rewrite wsum_app. simpl.
+    assert (H1 : pww (new_pw (tp_of cfg m)) = 1) by reflexivity. split; [lia|].
+    intros HF. apply Forall_app. split; auto. constructor; auto. apply E4, new_pw_ok.
+Qed.
+
+Lemma assign_fold_wg : forall cfg ms pws wg refs pws' wg' refs',
+  fold_left (assign_one cfg) ms (pws, wg, refs) = (pws', wg', refs') ->
+  wg' + wsum pws = wg + wsum pws' /\ (Forall pw_ok pws -> Forall pw_ok pws').
+Proof.
+  induction ms as [|m ms IH]; intros pws wg refs pws' wg' refs' H; cbn [fold_left] in H.
+  - inversion H; subst. split; auto.
+  - destruct (assign_one cfg (pws, wg, refs) m) as [[pws1 wg1] refs1] eqn:E.
+    apply assign_one_wg in E. apply IH in H. destruct E, H. split; [lia|auto].
+Qed.
+
+Lemma filter_neq_length : forall l k, NoDup l -> In k l ->
+  S (length (filter (fun x => negb (Nat.eqb x k)) l)) = length l.
+Proof.
+  induction l as [|a l IH]; simpl; intros k ND Hin; [contradiction|].
+  inversion ND; subst. destruct (Nat.eqb a k) eqn:E; simpl.
+  - apply Nat.eqb_eq in E. subst a. f_equal.
+    clear IH ND Hin H2. induction l as [|b l IHl]; simpl; auto.
+    destruct (Nat.eqb b k) eqn:E; simpl.
+    + apply Nat.eqb_eq in E. subst b. exfalso. apply H1. left; reflexivity.
+    + f_equal. apply IHl. intros Hin. apply H1. right; exact Hin.
+  - f_equal. apply IH; auto. destruct Hin as [->|Hin]; auto.
+    rewrite Nat.eqb_refl in E. discriminate.
+Qed.
+
+Lemma wsum_map_close : forall l, wsum (map close_pw l) = wsum l.
+Proof.
+  induction l as [|a l IH]; simpl; auto. rewrite IH. f_equal.
+  unfold close_pw. destruct (pw_open a); auto.
+  destruct (pw_curr a); unfold pww; simpl; rewrite ?put_alive, ?put_await; auto.
+Qed.
+
+Lemma close_pw_ok : forall pw, pw_ok pw -> pw_ok (close_pw pw).
+Proof.
+  intros pw. apply pw_ok_ext; unfold close_pw; destruct (pw_open pw); auto;
+    destruct (pw_curr pw); simpl; rewrite ?put_await, ?put_nb; auto.
+Qed.
+
+Definition wg_inv (s : state) : Prop :=
+  s_wg s = csum (s_calls s) + wsum (s_pws s) /\ Forall pw_ok (s_pws s).
+
+Ltac pw_upd E :=
+  match goal with |- context [upd _ _ ?y] => pose proof (wsum_upd _ _ _ y E) as HU end.
+
+Lemma wg_inv_step : forall cfg s l s', wg_inv s -> step cfg s l = Some s' -> wg_inv s'.
+Proof.
+  intros cfg s l s' [Hwg Hok] Hst. destruct l; unfold step in Hst.
+  - (* Call *)
+    destruct (call_admissible s g msgs); [|discriminate].
+    destruct (closed s);
+      [|destruct msgs; [|destruct (validate cfg merr (m :: msgs))]];
+      inversion Hst; subst s'; unfold wg_inv, add_call; simpl; rewrite csum_app; simpl;
+      (split; [unfold acw; simpl; lia|auto]).
+  - (* Assign *)
+    destruct (nth_error (s_calls s) c) as [cl|] eqn:E; [|discriminate].
+    destruct (c_ph cl) eqn:Eph; try discriminate.
+    unfold assign_all in Hst.
+    destruct (fold_left (assign_one cfg) (c_msgs cl) (s_pws s, s_wg s, [])) as [[pws wg] refs] eqn:EA.
+    inversion Hst; subst s'. apply assign_fold_wg in EA. destruct EA as [EA1 EA2].
+    unfold wg_inv; simpl. split; [|auto].
+    pose proof (csum_upd _ _ _ (mkCall (c_g cl) (c_msgs cl) refs CWaiting) E) as HC.
+    unfold acw, returned in HC. simpl in HC. rewrite Eph in HC. lia.
+  - (* Timer *)
+    destruct (nth_error (s_pws s) p) as [pw|] eqn:E; [|discriminate].
+    destruct (existsb (Nat.eqb k) (pw_await pw)) eqn:Ex; [|discriminate].
+    apply existsb_exists in Ex. destruct Ex as [x [Hin Hx]]. apply Nat.eqb_eq in Hx. subst x.
+    pose proof (Forall_nth _ _ _ _ _ Hok E) as [ND LT].
+    pose proof (filter_neq_length _ _ ND Hin) as HL.
+    inversion Hst; subst s'; clear Hst. unfold wg_inv, with_pw_done; simpl.
+    set (pw1 := match pw_curr pw with
+                | Some b => if Nat.eqb (b_k b) k then set_curr (put pw b) None else pw
+                | None => pw end).
+    assert (Ha : pw_await pw1 = pw_await pw /\ pw_nb pw1 = pw_nb pw /\ pw_alive pw1 = pw_alive pw).
+    { unfold pw1. destruct (pw_curr pw) as [b|]; auto. destruct (Nat.eqb (b_k b) k); auto.
+      simpl. rewrite put_await, put_nb, put_alive. auto. }
+    destruct Ha as [Ha1 [Ha2 Ha3]]. split.
+    + pw_upd E. unfold pww in HU. simpl in HU. rewrite Ha1, Ha3 in HU. Show. lia.
+    + apply Forall_upd; auto. unfold pw_ok. simpl. rewrite Ha1, Ha2. split.
+      * apply NoDup_filter; auto.
+      * intros k0 Hk. apply filter_In in Hk. apply LT, Hk.
+  - (* Get *)
+    destruct (nth_error (s_pws s) p) as [pw|] eqn:E; [|discriminate].
+    destruct (pw_alive pw) eqn:Eal; [|discriminate].
+    destruct (pw_snd pw); [discriminate|]. destruct (pw_queue pw); [discriminate|].
+    inversion Hst; subst s'; clear Hst. unfold wg_inv, with_pw; simpl. split.
+    + pw_upd E. unfold pww in HU. simpl in HU. lia.
+    + apply Forall_upd; auto. eapply pw_ok_ext; [| |exact (Forall_nth _ _ _ _ _ Hok E)]; auto.
+  - (* SenderExit *)
+    destruct (nth_error (s_pws s) p) as [pw|] eqn:E; [|discriminate].
+    destruct (pw_alive pw) eqn:Eal; [|discriminate].
+    destruct (pw_snd pw); [discriminate|]. destruct (pw_queue pw); [|discriminate].
+    destruct (pw_open pw); [discriminate|].
+    inversion Hst; subst s'; clear Hst. unfold wg_inv, with_pw_done; simpl. split.
+    + pw_upd E. unfold pww in HU. simpl in HU. rewrite Eal in HU. lia.
+    + apply Forall_upd; auto. eapply pw_ok_ext; [| |exact (Forall_nth _ _ _ _ _ Hok E)]; auto.
+  - (* Attempt *)
+    destruct (nth_error (s_pws s) p) as [pw|] eqn:E; [|discriminate].
+    destruct (pw_snd pw) as [[b n [| |e]]|]; try discriminate.
+    inversion Hst; subst s'; clear Hst. unfold wg_inv; simpl. split.
+    + pw_upd E. unfold pww in HU. simpl in HU. lia.
+    + apply Forall_upd; auto. eapply pw_ok_ext; [| |exact (Forall_nth _ _ _ _ _ Hok E)]; auto.
+  - (* BackoffDone *)
+    destruct (nth_error (s_pws s) p) as [pw|] eqn:E; [|discriminate].
+    destruct (pw_snd pw) as [[b n [| |e]]|]; try discriminate.
+    inversion Hst; subst s'; clear Hst. unfold wg_inv, with_pw; simpl. split.
+    + pw_upd E. unfold pww in HU. simpl in HU. lia.
+    + apply Forall_upd; auto. eapply pw_ok_ext; [| |exact (Forall_nth _ _ _ _ _ Hok E)]; auto.
+  - (* Finish *)
+    destruct (nth_error (s_pws s) p) as [pw|] eqn:E; [|discriminate].
+    destruct (pw_snd pw) as [[b n [| |e]]|]; try discriminate.
+    inversion Hst; subst s'; clear Hst. unfold wg_inv; simpl. split.
+    + pw_upd E. unfold pww in HU. simpl in HU. lia.
+    + apply Forall_upd; auto. eapply pw_ok_ext; [| |exact (Forall_nth _ _ _ _ _ Hok E)]; auto.
+  - (* Return *)
+    destruct (nth_error (s_calls s) c) as [cl|] eqn:E; [|discriminate].
+    destruct (c_ph cl) eqn:Eph; try discriminate.
+    assert (HR : forall r, wg_inv (ret_call s c cl r)).
+    { intros r. unfold wg_inv, ret_call; simpl. split; [|auto].
+      pose proof (csum_upd _ _ _ (mkCall (c_g cl) (c_msgs cl) (c_refs cl) (CReturned r)) E) as HC.
+      unfold acw, returned in HC. simpl in HC. rewrite Eph in HC. lia. }
+    destruct (async cfg); [inversion Hst; subst; apply HR|].
+    destruct (all_results (s_pws s) (c_refs cl)); [|discriminate]. inversion Hst; subst; apply HR.
+  - (* CtxDone *)
+    destruct (nth_error (s_calls s) c) as [cl|] eqn:E; [|discriminate].
+    destruct (c_ph cl) eqn:Eph; try discriminate.
+    destruct (async cfg); [discriminate|]. inversion Hst; subst s'.
+    unfold wg_inv, ret_call; simpl. split; [|auto].
+    pose proof (csum_upd _ _ _ (mkCall (c_g cl) (c_msgs cl) (c_refs cl) (CReturned (RErr ECtx))) E) as HC.
+    unfold acw, returned in HC. simpl in HC. rewrite Eph in HC. lia.
+  - (* CloseMark *)
+    destruct (s_close s); try discriminate. inversion Hst; subst s'. unfold wg_inv; simpl.
+    rewrite wsum_map_close. split; auto.
+    apply Forall_forall. intros x Hx. apply in_map_iff in Hx. destruct Hx as [y [<- Hy]].
+    apply close_pw_ok. rewrite Forall_forall in Hok. auto.
+  - (* CloseWaitDone *)
+    destruct (s_close s); try discriminate. destruct (s_wg s) eqn:W; try discriminate.
+    inversion Hst; subst s'. unfold wg_inv; simpl. split; auto. lia.
+Qed.
+
+Lemma wg_inv_runs : forall cfg ls s, runs cfg ls s -> wg_inv s.
+Proof.
+  intros cfg. apply runs_inv.
+  - split; simpl; auto.
+  - apply wg_inv_step.
+Qed.
+
+Lemma C09_w_waitgroup_exact_proof : stmt_C09_w_waitgroup_exact.
+Proof.
+  unfold stmt_C09_w_waitgroup_exact. intros cfg ls s Hr.
+  destruct (wg_inv_runs _ _ _ Hr) as [H _].
+  unfold active_calls, alive_senders, awaiters.
+  rewrite active_csum, <- Nat.add_assoc, live_wsum. exact H.
+Qed.
